@@ -359,3 +359,23 @@ impl<V> DotBuilder for HeaderMatcher<V> {
         Some(node_name)
     }
 }
+
+#[cfg(feature = "verif")]
+impl<T> HeaderMatcher<T> {
+    /// Canonical (sorted) rendering of the matcher state (verification hook)
+    pub fn verif_snapshot(&self) -> String {
+        let groups: Vec<String> = self
+            .condition_groups
+            .iter()
+            .map(|(conditions, matcher)| format!("{:?}=>{}", conditions, matcher.verif_snapshot()))
+            .collect();
+
+        format!(
+            "HD{{count:{},any:{},conditions:{:?},groups:[{}]}}",
+            self.count,
+            self.any_header.verif_snapshot(),
+            self.conditions,
+            groups.join(",")
+        )
+    }
+}
